@@ -1251,3 +1251,117 @@ func ruleReflectExported(c *Ctx, r *Report) {
 	r.ok(rule, "scan/Interface-calls", "-", desc, fmt.Sprintf("%d reflect.Value.Interface calls in the root package examined, %d of them on struct fields", n, nfield), false)
 	r.analysed(rule, fmt.Sprintf("%d Interface() calls, %d on struct fields", n, nfield))
 }
+
+// ---------------------------------------------------------------------------
+// R-SCAN-OVERWRITES (C12, C15; added after seed C12d): "Scan reports the most recent answer". A destination
+// may be reused from answer to answer, so every conversion that reports success has WRITTEN the destination:
+// in each typed conversion helper (first parameter a pointer) every return of a nil error is reached only
+// after a store through that pointer. A success path without a store (an unbound variable scanned into an
+// interface{} field that "is nil anyway") leaves the value of an earlier answer in place.
+
+func ruleScanOverwrites(c *Ctx, r *Report) {
+	const rule = "R-SCAN-OVERWRITES"
+	desc := "a conversion that reports success has stored into the destination"
+	n := 0
+	for _, fn := range c.LibFuncs() {
+		if funcPkg(fn) != c.Root || fn.Parent() != nil || !strings.HasPrefix(fn.Name(), "convertAssign") || len(fn.Params) == 0 {
+			continue
+		}
+		d := fn.Params[0]
+		if _, isPtr := d.Type().Underlying().(*types.Pointer); !isPtr {
+			continue
+		}
+		isStore := func(in ssa.Instruction) bool {
+			st, ok := in.(*ssa.Store)
+			return ok && st.Addr == ssa.Value(d)
+		}
+		nret := 0
+		var miss ssa.Instruction
+		eachInstr(fn, func(in ssa.Instruction) {
+			ret, ok := in.(*ssa.Return)
+			if !ok || len(ret.Results) != 1 || !isNilConst(ret.Results[0]) {
+				return
+			}
+			nret++
+			first := fn.Blocks[0].Instrs[0]
+			if isStore(first) {
+				return
+			}
+			if hit := instrReachAvoid(first, func(x ssa.Instruction) bool { return x == in }, isStore); hit != nil {
+				miss = in
+			}
+		})
+		if nret == 0 {
+			continue
+		}
+		n++
+		key := fname(fn) + "/success-after-store"
+		if miss == nil {
+			r.ok(rule, key, c.Pos(fn.Pos()), desc, fmt.Sprintf("%d successful returns, each reached only after a store through the destination pointer", nret), true)
+		} else {
+			r.bad(rule, key, c.at(miss), desc, "this successful return is reachable without a store through the destination pointer: a reused destination keeps the value of an earlier answer")
+		}
+	}
+	if n == 0 {
+		r.bad(rule, "scan/helpers", "-", desc, "no typed conversion helper found")
+	}
+	r.analysed(rule, fmt.Sprintf("%d typed conversion helpers", n))
+}
+
+// ---------------------------------------------------------------------------
+// R-PLACEHOLDER-FLAG (C15; added after seed C15d): "a Go value passed for a '?' placeholder behaves exactly
+// like the Prolog literal denoting that value (double-quoted text under the current double_quotes flag)".
+// Literal and placeholder are converted at two sites that both read Parser.doubleQuotes: the literal when it
+// is parsed, the placeholder when SetPlaceholder converts all arguments, once, before anything is parsed. As
+// long as the arguments are converted eagerly, the flag of an existing parser must not change: every store
+// to Parser.doubleQuotes is the initialisation of a parser being constructed. (If the flag is refreshed per
+// term - so that a set_prolog_flag directive takes effect in the rest of the text - the literal "hi" follows
+// the new flag while the placeholder "hi" keeps the old one.)
+
+func rulePlaceholderFlag(c *Ctx, r *Report) {
+	const rule = "R-PLACEHOLDER-FLAG"
+	setPH := c.method("Parser", "SetPlaceholder")
+	termOf := c.method("Parser", "termOf")
+	if setPH == nil || termOf == nil {
+		r.undecided(rule, "anchor", "-", "locate Parser.SetPlaceholder and Parser.termOf", "not found")
+		return
+	}
+	desc := "placeholders and literals are converted under the same double_quotes value"
+	// is the conversion eager? SetPlaceholder (transitively, statically) calls termOf, which reads the flag
+	eager := c.staticallyReaches(setPH, termOf)
+	readsFlag := false
+	eachInstr(termOf, func(in ssa.Instruction) {
+		if fa, ok := in.(*ssa.FieldAddr); ok && fieldName(fa) == "doubleQuotes" {
+			readsFlag = true
+		}
+	})
+	n := 0
+	var late ssa.Instruction
+	var lateFn *ssa.Function
+	for _, fn := range c.LibFuncs() {
+		eachInstr(fn, func(in ssa.Instruction) {
+			st, ok := in.(*ssa.Store)
+			if !ok {
+				return
+			}
+			fa, ok := st.Addr.(*ssa.FieldAddr)
+			if !ok || fieldName(fa) != "doubleQuotes" || !isEngNamed(deref(fa.X.Type()), "Parser") {
+				return
+			}
+			n++
+			if _, fresh := fa.X.(*ssa.Alloc); !fresh {
+				late, lateFn = in, fn
+			}
+		})
+	}
+	key := "Parser.doubleQuotes/writers"
+	switch {
+	case late == nil:
+		r.ok(rule, key, "-", desc, fmt.Sprintf("%d stores to Parser.doubleQuotes, all initialising a parser under construction", n), true)
+	case eager && readsFlag:
+		r.bad(rule, key, c.at(late), desc, fname(lateFn)+" changes the flag of an existing parser while SetPlaceholder has already converted the arguments under the old value: after a double_quotes directive in the same text a literal and a placeholder with the same string denote different terms")
+	default:
+		r.ok(rule, key, c.at(late), desc, "the flag of an existing parser is changed, but placeholder arguments are converted lazily (not from SetPlaceholder)", true)
+	}
+	r.analysed(rule, fmt.Sprintf("%d stores to Parser.doubleQuotes; eager conversion: %v", n, eager && readsFlag))
+}
